@@ -58,4 +58,10 @@ def make_unrodded(model='simple', fr=1.0, ftf=(0.026, 0.028), vf=0.3, z=(0.0, 1.
     from symx import npshim
     cls = rum.SingleNodeHomogeneous if model == 'simple' else rum.MultiNodeHomogeneous
     with npshim.unpatched():
+        kw.setdefault('gravity', gravity)
+        kw.setdefault('lowflow', lowflow)
+        if convection_factor != 1.0:
+            kw.setdefault('convection_factor', convection_factor)
+        if rr_equiv is not None:
+            kw.setdefault('rr_equiv', rr_equiv)
         return cls('ur', z[0], z[1], list(ftf), vf, fr, coolant, duct, None, **kw)
